@@ -231,6 +231,7 @@ def real_family_sessions(ctx, pexpect, n, use_async):
         try:
             w = replwrap.REPLWrapper(child, r'\$', 'eset', new_prompt=prompt, continuation_prompt=cont)
             m.step('eset')
+            child.timeout = 1.2          # the default of the spawn object is short: run_command is given its own, longer timeout
             cmds = []
             for _ in range(rng.randint(3, 7)):
                 x = rng.random()
@@ -239,11 +240,15 @@ def real_family_sessions(ctx, pexpect, n, use_async):
                     cmds.append('r%d,%s' % (rng.choice([100, 3000, 20000, 60000]) // len(big), big))
                 elif x < 0.3:
                     cmds.append('(\nr%d,%s\nezz\n)' % (rng.choice([500, 8000]), rng.choice(['q', 'é'])))
+                elif x < 0.36 and not any('w' == c_[:1] or '\nw' in c_ for c_ in cmds):
+                    cmds.append('(\nw\nehello\n)')          # an intermediate line slower than the object's default timeout
                 else:
                     cmds.append(gen_command(rng, True))
+            if it == 0:
+                cmds.insert(1, '(\nw\nehello\n)')          # always once: an intermediate line slower than the object's default timeout
 
             async def arun(c):
-                return await w.run_command(c, async_=True)
+                return await w.run_command(c, timeout=20, async_=True)
             loop = asyncio.new_event_loop() if use_async else None
             try:
                 for c in cmds:
@@ -254,7 +259,7 @@ def real_family_sessions(ctx, pexpect, n, use_async):
                         if use_async and py_cmdlines(c):
                             got = ('ret', loop.run_until_complete(arun(c)))
                         else:
-                            got = ('ret', w.run_command(c))
+                            got = ('ret', w.run_command(c, timeout=20))
                     except ValueError as e:
                         got = ('nocommand',) if 'No command' in str(e) else ('incomplete',)
                     except (pexpect.TIMEOUT, pexpect.EOF) as e:
@@ -277,6 +282,7 @@ def real_family_sessions(ctx, pexpect, n, use_async):
 
 BASH_CMDS = [
     (lambda t: 'echo %s' % t, lambda t: t + '\r\n'),
+    (lambda t: "printf %%s '%s'" % (t * (5000 // len(t) + 1)), lambda t: t * (5000 // len(t) + 1)),          # an input line longer than a terminal's canonical buffer
     (lambda t: 'printf %%s %s' % t, lambda t: t),
     (lambda t: 'true', lambda t: ''),
     (lambda t: 'x=%s' % t, lambda t: ''),
